@@ -42,7 +42,7 @@ pub struct Printer<'a> {
 }
 
 const COMMENTS: &[&str] = &["[- c -]", "[- note: x -]", "[--]", "[- @x{1} -]", "[-- note --]", "[---]", "[- x --]", "[- a - b -]", "[- é ] -]", "[- a\nb -]"];
-const LINE_COMMENTS: &[&str] = &["-- c", "--", "-- @y{2%kg} >> k: v", "--- dashes"];
+const LINE_COMMENTS: &[&str] = &["-- c", "--", "-- @y{2%kg} >> k: v", "--- dashes", "-- é", "-- 😀"];
 
 impl<'a> Printer<'a> {
     pub fn new(tape: &'a [u16], ext: bool, plain: bool) -> Self {
@@ -250,6 +250,12 @@ impl<'a> Printer<'a> {
         }
         if let Some(n) = &c.note {
             s.push('(');
+            // a comment may sit between the parenthesis and the note text; a line comment ends the line, the
+            // note goes on below
+            if !self.plain && self.tape.chance(1, 8) {
+                self.f.comments += 1;
+                s.push_str(["[- é -]", "-- é\n", " [-- ü --] ", "-- see the café\n  "][self.tape.pick(4) as usize]);
+            }
             s.push_str(&self.blanks());
             let n = self.words(n);
             s.push_str(&n);
@@ -362,6 +368,7 @@ impl<'a> Printer<'a> {
                     self.out.push(*c);
                 }
                 TokM::Num(n) => self.out.push_str(n),
+                TokM::Raw(r) => self.out.push_str(r),
                 TokM::Comp(c) => {
                     let s = self.comp(c);
                     self.out.push_str(&s)
